@@ -221,8 +221,37 @@ def text_equals(t, expected):
         if isinstance(a, str) or isinstance(b, str):
             if a != b:
                 return False
+        elif a[0] == "atom" or b[0] == "atom":
+            if not (a[0] == b[0] == "atom" and a[1] is b[1]):
+                return False
         else:
             conds.append(a[1] == b[1])
+    return And(*conds) if conds else True
+
+
+def same_text(a, b):
+    """two rendered texts are the same string (engine texts: same literal / int / atom parts)."""
+    if isinstance(a, str) and isinstance(b, str):
+        return a == b
+    if isinstance(a, str) or isinstance(b, str):
+        return False
+    pa, pb = text_parts(a), text_parts(b)
+    if hasattr(a, "tag") and a.tag == "str(UUID)":
+        pa = [("atom", a.attrs["$of"])]
+    if hasattr(b, "tag") and b.tag == "str(UUID)":
+        pb = [("atom", b.attrs["$of"])]
+    if not isinstance(pa, list) or not isinstance(pb, list) or len(pa) != len(pb):
+        return False
+    conds = []
+    for x, y in zip(pa, pb):
+        if isinstance(x, str) or isinstance(y, str):
+            if x != y:
+                return False
+        elif x[0] == "atom" or y[0] == "atom":
+            if not (x[0] == y[0] == "atom" and x[1] is y[1]):
+                return False
+        else:
+            conds.append(x[1] == y[1])
     return And(*conds) if conds else True
 
 
